@@ -89,7 +89,11 @@ var (
 func RepoDigest() string {
 	digestOnce.Do(func() {
 		h := sha256.New()
-		for _, root := range []string{core.RepoDir(), filepath.Join(core.Root(), "e2"), filepath.Join(core.Root(), "cmd", "genworker")} {
+		// harness parts that determine what is generated and compiled; the driver (e2/drv) is
+		// relinked on every run instead, so editing an oracle does not invalidate the corpora
+		e2 := filepath.Join(core.Root(), "e2")
+		for _, root := range []string{core.RepoDir(), filepath.Join(e2, "spec"), filepath.Join(e2, "build"), filepath.Join(e2, "stubgen"),
+			filepath.Join(e2, "pipe"), filepath.Join(e2, "vreg"), filepath.Join(e2, "cluestub"), filepath.Join(core.Root(), "cmd", "genworker")} {
 			var files []string
 			_ = filepath.WalkDir(root, func(p string, d fs.DirEntry, err error) error {
 				if err != nil {
@@ -209,6 +213,13 @@ func Build(family string, specs []*spec.Spec, opt Options) (*Corpus, error) {
 				d.Spec = specs[i]
 			}
 			c.Cached = true
+			if c.Driver != "" {
+				// relink the driver against the current e2/drv sources (incremental)
+				out, err, _ := run(dir, 30*time.Minute, "go", "build", "-o", c.Driver, "./zdriver")
+				if err != nil {
+					return nil, fmt.Errorf("driver build failed: %v\n%s", err, tail(out, 6000))
+				}
+			}
 			return &c, nil
 		}
 	}
@@ -498,7 +509,7 @@ func culpritMethods(corpusDir string, d *Design) map[string][]string {
 	return out
 }
 
-var identNumRe = regexp.MustCompile(`\b([A-Za-z]*[Mm])\d+`)
+var identNumRe = regexp.MustCompile(`([Mm])\d+`)
 
 // abstractDiag removes design-specific numbering from a compiler diagnostic.
 func abstractDiag(msg string) string {
